@@ -260,6 +260,17 @@ fn prev_code_end(src: &str, pos: usize) -> usize {
     e
 }
 
+/// index just past the first line feed at or after `pos` (or the length of the text)
+fn line_end_after(src: &str, pos: usize) -> usize {
+    let pos = pos.min(src.len());
+    src.as_bytes()[pos..].iter().position(|b| *b == b'\n').map_or(src.len(), |i| pos + i + 1)
+}
+
+/// where the leading trivia of the end-of-file token start: after the line of the last code token
+fn eof_trivia_start(src: &str) -> usize {
+    line_end_after(src, prev_code_end(src, src.len()))
+}
+
 fn next_code_start(src: &str, pos: usize) -> usize {
     for t in lex::lex(src) {
         if t.is_trivia() {
@@ -372,9 +383,15 @@ pub fn observe(src: &str, out: &str, cfg: &Config, range: Option<Range>, case: &
     if let Some(rg) = range {
         j["range"] = json!({"start": rg.start.map(|x| x as u64).unwrap_or(0), "has_start": rg.start.is_some(),
             "end": rg.end.map(|x| if x > (1usize << 30) { 1u64 << 30 } else { x as u64 }).unwrap_or(0), "has_end": rg.end.is_some()});
+        // the end-of-file token lies in the range (then the comments / blank lines after the last statement's line
+        // may be tidied); is everything before them byte-identical?
+        let eof_in = rg.end.map_or(true, |e| src.len() <= e) && rg.start.map_or(true, |s| s <= src.len());
+        j["range"]["eof_in"] = json!(eof_in);
+        j["range"]["body_same"] = json!(src[..eof_trivia_start(src)] == out[..eof_trivia_start(out).min(out.len())]);
         // prefix / suffix facts around the statements the harness can match; TLC picks the ones it needs:
         // for every statement: is the text before it (up to the previous code token) and after it unchanged?
         let mut ps = Vec::new();
+        let eof_in_range = rg.end.map_or(true, |e| src.len() <= e) && rg.start.map_or(true, |s| s <= src.len());
         for r in &in_recs {
             if r.kind == "field" {
                 continue;
@@ -382,9 +399,13 @@ pub fn observe(src: &str, out: &str, cfg: &Config, range: Option<Range>, case: &
             if let Some(o) = out_idx.get(&r.path) {
                 let pi = prev_code_end(src, r.start);
                 let po = prev_code_end(out, o.start);
-                let si = next_code_start(src, r.end_semi);
-                let so = next_code_start(out, o.end_semi);
-                ps.push(json!({"path": r.path, "prefix_same": src[..pi] == out[..po], "suffix_same": src[si..] == out[so..]}));
+                // the suffix starts where the statement's own line ends, or at the next code token if that comes first
+                let si = next_code_start(src, r.end_semi).min(line_end_after(src, r.end_semi));
+                let so = next_code_start(out, o.end_semi).min(line_end_after(out, o.end_semi));
+                // the end-of-file token (whose leading trivia are the comments and blank lines after the last
+                // statement's line) is itself formatted when it lies in the range: its trivia are then not judged
+                let (ti, to) = if eof_in_range { (eof_trivia_start(src).max(si), eof_trivia_start(out).max(so)) } else { (src.len(), out.len()) };
+                ps.push(json!({"path": r.path, "prefix_same": src[..pi] == out[..po], "suffix_same": src[si..ti] == out[so..to]}));
             }
         }
         j["affix"] = json!(ps);
